@@ -38,3 +38,33 @@ def testfailure_ctor_table(prog, run, rid):
                    what="" if ok else "failure identity field %s is filled from %s, expected %s" % (fld, got, exp[0]))
             n += 1
     return n
+
+
+def plugin_chain_order(prog, run, rid):
+    """ORDER over the plugin chain walkers: the pre action runs head first (own action, then the rest),
+    the post action tail first (the rest, then own action); a disabled plugin skips only its own action;
+    NullTestPlugin ends the recursion."""
+    for meth, own, own_first in (("runAllPreTestAction", "preTestAction", True), ("runAllPostTestAction", "postTestAction", False)):
+        f = prog.fn("TestPlugin::" + meth)
+        run.analysed(f)
+        for p in enumerate_paths(f):
+            calls = path_calls(prog, f, p)
+            names = [(prog.callee_name(f, c) or "").split("::")[-1] for c in calls]
+            rec = [i for i, c in enumerate(calls) if names[i] == meth and render(f, f.node(c.get("obj"))) == "next_"]
+            mine = [i for i, n in enumerate(names) if n == own]
+            en = p.val().get("enabled_")
+            why = ""
+            if len(rec) != 1:
+                why = "the rest of the chain is visited %d times on this path (a disabled plugin must skip only its own action)" % len(rec)
+            elif en is None or len(mine) != (1 if en else 0):
+                why = "own %s called %d times with enabled_=%s" % (own, len(mine), en)
+            elif mine and ((mine[0] < rec[0]) != own_first):
+                why = "own action and recursion are in the wrong order for %s" % meth
+            args_ok = all([render(f, a) for a in f.args(calls[i])] == [q["name"] for q in f.params] for i in rec + mine)
+            if not why and not args_ok:
+                why = "test/result are not forwarded unchanged"
+            run.ob(rid, "%s [%s]" % (meth, p.describe(f)), f.site, not why, witness=names, what=why)
+        nf = prog.fn("NullTestPlugin::" + meth, required=False)
+        ok = nf is not None and not nf.calls()
+        run.ob(rid, "NullTestPlugin::%s ends the chain" % meth, nf.site if nf else "src/CppUTest/TestPlugin.cpp:NullTestPlugin::" + meth, ok,
+               what="" if ok else "the chain terminator does not override %s with an empty body" % meth)
